@@ -388,9 +388,9 @@ func isSubpath(base, target string) bool {
 
 // isLocalName reports whether a file name taken from a request stays inside
 // the directory it is going to be joined to (no parent-directory segments, not
-// absolute, not empty).
+// absolute, not empty, not the directory itself).
 func isLocalName(name string) bool {
-	return filepath.IsLocal(name)
+	return filepath.IsLocal(name) && filepath.Clean(name) != "."
 }
 
 // partsAreLocal checks every name a payload header can carry: the file name
